@@ -356,7 +356,7 @@ def run(ctx):
                    '(frames loaded from .h5 files can be copied)', f2, ok,
                    {'deepcopy_of': pretty(arg)[:120], 'deletions_before': [d.text() for d in dels]}, node=e.node,
                    construct=f'{f2.name}: copy.deepcopy(<waterfall>)')
-    ctx.require(n_dc >= 2, 'fewer than two deep copies of a Waterfall found in frame.py (from_data / copy expected): vacuity guard')
+    ctx.require(n_dc >= 1, 'no deep copy of a Waterfall found in frame.py (from_data / copy expected): vacuity guard')
     agree_ref(ctx, ctx.func('frame.Frame.copy'), REF_COPY, 'copy(): deep copy plus a deep copy of the refreshed Waterfall',
               what=('return', 'attrstores', 'calls'), expand=False, max_depth=0)
 
